@@ -256,6 +256,42 @@ def _xfam(item):
     return ("ok", None, fam)
 
 
+def _instclash(kind):
+    """The module being flattened holds a leaf of its own named like the ':'-joined path-name of a nested leaf (a partly
+    flattened design), declared before or after the hierarchical instance:
+    flatten() must refuse, or keep every device."""
+    import hdl21 as h
+    from hdl21.flatten import flatten
+
+    try:
+        cell = h.Module(name="KCell")
+        cell.p, cell.n = h.Port(), h.Port()
+        cell.mid = h.Signal()
+        cell.r1 = h.R(r=1)(p=cell.p, n=cell.mid)
+        cell.r2 = h.R(r=2)(p=cell.mid, n=cell.n)
+        top = h.Module(name="KTop")
+        top.x, top.y, top.z = h.Port(), h.Port(), h.Signal()
+        own = lambda: top.add(h.R(r=3)(p=top.x, n=top.z), name="u0:r1")
+        if kind == "own_leaf_before":
+            own()
+        top.u0 = cell(p=top.x, n=top.y)
+        if kind == "own_leaf_after":
+            own()
+        want = 3
+        flat = flatten(top)
+    except Exception as e:
+        return ("raised", short_exc(e))
+    try:
+        pkg = h.to_proto(flat)
+        pm = [m for m in pkg.modules if m.name.endswith("KTop_flat")][0]
+    except Exception as e:
+        return ("bad", "flattened module cannot be exported: " + short_exc(e))
+    names = [i.name for i in pm.instances]
+    if len(names) != want or len(set(names)) != want:
+        return ("bad", f"the design has {want} leaf devices; the flattened module has instances {names}")
+    return ("ok", None)
+
+
 def run_xfam(ctx):
     import importlib
 
@@ -315,6 +351,13 @@ def run(ctx):
         ctx.outcome("special:" + status)
         if status == "bad":
             ctx.violation(dict(leaf="-", names="-", what="wrong flattening of " + kind), dict(special=kind), detail)
+    for kind in ("own_leaf_before", "own_leaf_after"):
+        status, detail = _instclash(kind)
+        ctx.count(states=1, transitions=3, traces_validated_against_impl=1)
+        ctx.fam("instance_name_clash", **{status: 1})
+        ctx.outcome("instclash:" + status)
+        if status == "bad":
+            ctx.violation(dict(leaf="-", names="-", what="wrong flattening of a design whose own leaf is named like a path: " + kind), dict(instclash=kind), detail)
     for kind in ("top_renamed", "mid_renamed", "top_alias"):
         status, detail = _slip(kind)
         ctx.count(states=1, transitions=3, traces_validated_against_impl=1)
@@ -333,6 +376,8 @@ def replay(body):
         def tup(x):
             return tuple(tup(y) for y in x) if isinstance(x, list) else x
         r = _xfam((c["xfam"][0], tup(c["xfam"][1])))[:2]
+    elif "instclash" in c:
+        r = _instclash(c["instclash"])
     elif "slip" in c:
         r = _slip(c["slip"])
     elif "special" in c:
